@@ -54,6 +54,11 @@ def build_objects(kind, key):
         return out
     if kind == "code":
         return {key: code_cases()[key][1]}
+    if kind == "custom":
+        from checks._c15_classes import Mixed
+
+        x_, y_ = sp.symbols("x y")
+        return {"Mixed(x,'plus',y)": Mixed(x_, "plus", y_), "Mixed(nested)": Mixed(x_ + 1, "minus", Mixed(y_, "plus", x_))}
     if kind == "deprecated":
         x_, y_ = sp.symbols("x y")
         return {"unnamed": SquaredSum(x_, y_), "named": SquaredSum(x_, y_, name="N")}
@@ -235,6 +240,7 @@ def configs(tier):
     for case in code_cases():
         out.append({"name": f"code:{case}", "kind": "code", "key": case})
     out.append({"name": "deprecated:UnevaluatedExpression", "kind": "deprecated", "key": "x"})
+    out.append({"name": "custom:non-SymPy attribute between SymPy arguments", "kind": "custom", "key": "x"})
     for m in ("bw", "stable", "dpd") if tier == "thorough" else ("stable", "dpd"):
         out.append({"name": f"model:{m}", "kind": "model", "key": m, "config_timeout": 600})
     return out
